@@ -807,4 +807,272 @@ theorem Acct.endDriver {s : St} (h : Acct s) (how : Drv) (hhow : how ≠ .runnin
       · rw [← ho']
         exact ⟨rfl, rfl, rfl, hnq, fun _ => rfl, fun hm => hm, fun hp => hp⟩
 
+theorem dropSender_get (ops : List Op) (i j : Nat) :
+    (dropSender ops i)[j]? = if j = i then (ops[i]?).map (fun o => if o.mail = .empty then { o with mail := .dropped } else o)
+      else ops[j]? := by
+  unfold dropSender; exact modifyOp_get ops i j _
+
+theorem dropSenderOpt_get (ops : List Op) (x : Option Nat) (j : Nat) (o' : Op) (h : (dropSenderOpt ops x)[j]? = some o') :
+    ∃ o : Op, ops[j]? = some o ∧ o'.id = o.id ∧ o'.kind = o.kind ∧ o'.chan = o.chan ∧ o'.res = o.res ∧
+      o'.phase = o.phase ∧ o'.deadline = o.deadline ∧ (x ≠ some j → o' = o) ∧ (o'.mail = o.mail ∨ (o.mail = .empty ∧ o'.mail = .dropped)) := by
+  cases x with
+  | none => exact ⟨o', h, rfl, rfl, rfl, rfl, rfl, rfl, fun _ => rfl, Or.inl rfl⟩
+  | some i =>
+    simp only [dropSenderOpt, dropSender_get] at h
+    split at h
+    · next e =>
+      subst e
+      cases ho : ops[j]? with
+      | none => rw [ho] at h; cases h
+      | some o =>
+        rw [ho] at h
+        simp only [Option.map_some, Option.some.injEq] at h
+        refine ⟨o, rfl, ?_⟩
+        rw [← h]
+        split
+        · next hm => exact ⟨rfl, rfl, rfl, rfl, rfl, rfl, fun hne => absurd rfl hne, Or.inr ⟨hm, rfl⟩⟩
+        · exact ⟨rfl, rfl, rfl, rfl, rfl, rfl, fun _ => rfl, Or.inl rfl⟩
+    · next e =>
+      exact ⟨o', h, rfl, rfl, rfl, rfl, rfl, rfl, fun _ => rfl, Or.inl rfl⟩
+
+theorem dropSenderOpt_put (ops : List Op) (x : Option Nat) (j : Nat) (o : Op) (h : ops[j]? = some o) (hne : x ≠ some j) :
+    (dropSenderOpt ops x)[j]? = some o := by
+  cases x with
+  | none => exact h
+  | some i =>
+    have : j ≠ i := fun e => hne (by rw [e])
+    simp only [dropSenderOpt, dropSender_get, if_neg this]; exact h
+
+theorem dropSenderOpt_length (ops : List Op) (x : Option Nat) : (dropSenderOpt ops x).length = ops.length := by
+  cases x with
+  | none => rfl
+  | some i => simp only [dropSenderOpt, dropSender]; exact modifyOp_length _ _ _
+
+theorem Acct.drvScrub {s s' : St} {ob : Obs} (h : Acct s) (hs : step s .drvScrub = some (s', ob)) : Acct s' := by
+  simp only [step] at hs
+  split at hs
+  · cases hs
+  · next hrun' =>
+    have hrun : s.drv = .running := by simpa using hrun'
+    cases hq : s.scrubQ with
+    | nil => rw [hq] at hs; cases hs
+    | cons k rest =>
+      rw [hq] at hs
+      simp only [Option.some.injEq, Prod.mk.injEq] at hs
+      rw [← hs.1]
+      obtain ⟨a1, a2, a3, a4, a5, a6, a7, a8, a9, a10, a11, a12, a13⟩ := h
+      -- the op whose sender is dropped, if any, is registered under k
+      have htarget : ∀ i, lookup s.resultmap (k : Int) = some i → ∃ o : Op, s.ops[i]? = some o ∧ o.id = k ∧ o.phase = .taken ∧ o.mail = .empty := by
+        intro i hi
+        obtain ⟨n, hmem, hn⟩ := lookup_some hi
+        obtain ⟨o, ho, hid, hpt, hm, _⟩ := a5 (n, i) hmem
+        have : n = k := by exact_mod_cast hn
+        exact ⟨o, ho, by rw [hid]; exact this, hpt, hm⟩
+      have hsame : ∀ (j : Nat) (o : Op), s.ops[j]? = some o → (o.id ≠ k ∨ o.phase ≠ .taken ∨ o.mail ≠ .empty) →
+          (dropSenderOpt s.ops (lookup s.resultmap (k : Int)))[j]? = some o := by
+        intro j o ho hdiff
+        apply dropSenderOpt_put _ _ _ _ ho
+        intro e
+        obtain ⟨o2, ho2, h1, h2, h3⟩ := htarget j e
+        rw [ho] at ho2; cases ho2
+        rcases hdiff with d | d | d
+        · exact d h1
+        · exact d h2
+        · exact d h3
+      have hrest : ∀ x, x ∈ s.scrubQ → x ≠ k → x ∈ rest := by
+        intro x hx hne; rw [hq] at hx; simp only [List.mem_cons] at hx
+        rcases hx with e | e
+        · exact absurd e hne
+        · exact e
+      refine ⟨?_, ?_, ?_, ?_, ?_, ?_, ?_, ?_, ?_, ?_, ?_, ?_, a13⟩
+      · intro j hj
+        obtain ⟨o, ho, hp⟩ := a1 j hj
+        exact ⟨o, hsame j o ho (Or.inr (Or.inl (by rw [hp]; simp))), hp⟩
+      · intro j o' ho' hp
+        obtain ⟨o, ho, _, _, _, _, hph, _⟩ := dropSenderOpt_get _ _ j o' ho'
+        exact a2 j o ho (by rw [← hph]; exact hp)
+      · intro j o' ho' hp
+        obtain ⟨o, ho, _, _, _, hres, hph, _, heq, _⟩ := dropSenderOpt_get _ _ j o' ho'
+        have hsm := hsame j o ho (Or.inr (Or.inl (by rw [← hph]; exact hp)))
+        rw [ho'] at hsm; cases hsm
+        exact a3 j o' ho hp
+      · intro j o' ho'
+        obtain ⟨o, ho, _, hk, hc, _⟩ := dropSenderOpt_get _ _ j o' ho'
+        rw [hk, hc]; exact a4 j o ho
+      · intro p hp
+        obtain ⟨hin, hne⟩ := mem_erase hp
+        obtain ⟨o, ho, hid, hpt, hm, hrs⟩ := a5 p hin
+        have hidk : o.id ≠ k := by rw [hid]; intro e; exact hne (by rw [e])
+        refine ⟨o, hsame _ o ho (Or.inl hidk), hid, hpt, hm, ?_⟩
+        rcases hrs with r | ⟨r1, r2⟩
+        · exact Or.inl r
+        · exact Or.inr ⟨r1, hrest _ r2 (by rw [← hid]; exact hidk)⟩
+      · intro p hp
+        obtain ⟨hin, hne⟩ := mem_erase hp
+        obtain ⟨ch, o, hc, ho, hid, hch, hpt, hm, hnd, himp, hrs⟩ := a6 p hin
+        have hidk : o.id ≠ k := by rw [hid]; intro e; exact hne (by rw [e])
+        exact ⟨ch, o, hc, hsame _ o ho (Or.inl hidk), hid, hch, hpt, hm, hnd,
+          fun hh => hrest _ (himp hh) (by rw [← hid]; exact hidk), hrs⟩
+      · intro c ch o' hc ho'
+        obtain ⟨o, ho, _, _, _, hres, hph, _⟩ := dropSenderOpt_get _ _ _ o' ho'
+        have := a7 c ch o hc ho
+        exact ⟨fun hne => this.1 (by rw [← hres]; exact hne), fun hp => this.2 (by rw [← hph]; exact hp)⟩
+      · intro j hj o' ho' hto
+        obtain ⟨o, ho, hid, _, _, hres, _⟩ := dropSenderOpt_get _ _ j o' ho'
+        rw [hid]
+        rcases a8 j hj o ho (by rw [← hres]; exact hto) with r | r
+        · by_cases e : o.id = k
+          · right; rw [e]; exact not_mem_eraseId _ _
+          · left; exact hrest _ r e
+        · right; intro hmem; exact r (mem_eraseId.mp hmem).1
+      · intro j o' ho' hh
+        obtain ⟨o, ho, _, _, _, hres, hph, _, _, hmail⟩ := dropSenderOpt_get _ _ j o' ho'
+        rw [hph]
+        apply a9 j o ho
+        rcases hh with hh | hh
+        · exact Or.inl (by rw [← hres]; exact hh)
+        · rcases hmail with e | ⟨_, e⟩
+          · exact Or.inr (by rw [← e]; exact hh)
+          · rw [e] at hh; cases hh
+      · intro _ x hx
+        obtain ⟨hxin, hxne⟩ := mem_eraseId.mp hx
+        have hxk : x ≠ k := fun e => hxne (by rw [e])
+        obtain ⟨j, o, ho, hid, hreg⟩ := a10 hrun x hxin
+        refine ⟨j, o, hsame j o ho (Or.inl (by rw [hid]; exact hxk)), hid, ?_⟩
+        rcases hreg with r | r | r | ⟨c, r1, r2⟩ | r
+        · exact Or.inl r
+        · exact Or.inr (Or.inl r)
+        · refine Or.inr (Or.inr (Or.inl ?_))
+          unfold erase; simp only [List.mem_filter]
+          refine ⟨r, ?_⟩
+          simp only [Bool.not_eq_eq_eq_not, Bool.not_true, beq_eq_false_iff_ne, ne_eq]
+          rw [hid]; exact_mod_cast hxk
+        · refine Or.inr (Or.inr (Or.inr (Or.inl ⟨c, r1, ?_⟩)))
+          unfold erase; simp only [List.mem_filter]
+          refine ⟨r2, ?_⟩
+          simp only [Bool.not_eq_eq_eq_not, Bool.not_true, beq_eq_false_iff_ne, ne_eq]
+          rw [hid]; exact_mod_cast hxk
+        · exact Or.inr (Or.inr (Or.inr (Or.inr r)))
+      · intro hd; exact absurd hrun hd
+      · intro c ch hc; rw [dropSenderOpt_length]; exact a12 c ch hc
+
+theorem mem_erase_of {m : List (Nat × Nat)} {k : Int} {p : Nat × Nat} (h : p ∈ m) (hne : (p.1 : Int) ≠ k) : p ∈ erase m k := by
+  unfold erase; simp only [List.mem_filter]
+  exact ⟨h, by simpa using hne⟩
+
+/-- releasing the ID `n` together with every routing entry under it, `ops` and `chans` being changed
+only in ways the caller accounts for -/
+theorem Acct.release {s s' : St} (h : Acct s) (n : Nat) (hrun : s.drv = .running) (hd : s'.drv = s.drv)
+    (hq : s'.opQ = s.opQ) (hsq : s'.scrubQ = s.scrubQ)
+    (hrm : ∀ p, p ∈ s'.resultmap ↔ (p ∈ s.resultmap ∧ p.1 ≠ n))
+    (hsm : ∀ p, p ∈ s'.searchmap ↔ (p ∈ s.searchmap ∧ p.1 ≠ n))
+    (hin : ∀ k, k ∈ s'.inUse ↔ (k ∈ s.inUse ∧ k ≠ n))
+    (hlen : s'.ops.length = s.ops.length)
+    -- operations: only the mailbox of operations registered under `n` may change (to a frame)
+    (hops : ∀ (j : Nat) (o : Op), s.ops[j]? = some o → ∃ o' : Op, s'.ops[j]? = some o' ∧ o'.id = o.id ∧ o'.kind = o.kind ∧
+      o'.chan = o.chan ∧ o'.res = o.res ∧ o'.phase = o.phase ∧ (o' = o ∨ (o.id = n ∧ o.phase = .taken ∧ o'.mail ≠ .ack)))
+    -- channels: only a channel whose search is registered under `n` may get items appended
+    (hch : ∀ (c : Nat) (ch : Chan), s.chans[c]? = some ch → ∃ ch' : Chan, s'.chans[c]? = some ch' ∧ ch'.opIdx = ch.opIdx ∧
+      ch'.finScrub = ch.finScrub ∧ ch'.timedOut = ch.timedOut ∧
+      (ch'.items = ch.items ∨ (∃ o : Op, s.ops[ch.opIdx]? = some o ∧ o.id = n ∧ o.phase = .taken ∧
+        ((n, c) ∈ s'.searchmap → noDone ch'))))
+    (hchlen : s'.chans.length = s.chans.length) : Acct s' := by
+  obtain ⟨a1, a2, a3, a4, a5, a6, a7, a8, a9, a10, a11, a12, a13⟩ := h
+  have hops_back : ∀ (j : Nat) (o' : Op), s'.ops[j]? = some o' → ∃ o : Op, s.ops[j]? = some o ∧ o'.id = o.id ∧ o'.kind = o.kind ∧
+      o'.chan = o.chan ∧ o'.res = o.res ∧ o'.phase = o.phase ∧ (o' = o ∨ (o.id = n ∧ o.phase = .taken ∧ o'.mail ≠ .ack)) := by
+    intro j o' ho'
+    have hj : j < s.ops.length := by rw [← hlen]; exact (List.getElem?_eq_some_iff.mp ho').1
+    obtain ⟨o2, ho2, r⟩ := hops j s.ops[j] (List.getElem?_eq_getElem hj)
+    rw [ho'] at ho2; cases ho2
+    exact ⟨s.ops[j], List.getElem?_eq_getElem hj, r⟩
+  have hch_back : ∀ (c : Nat) (ch' : Chan), s'.chans[c]? = some ch' → ∃ ch : Chan, s.chans[c]? = some ch ∧ ch'.opIdx = ch.opIdx ∧
+      ch'.finScrub = ch.finScrub ∧ ch'.timedOut = ch.timedOut ∧
+      (ch'.items = ch.items ∨ (∃ o : Op, s.ops[ch.opIdx]? = some o ∧ o.id = n ∧ o.phase = .taken ∧
+        ((n, c) ∈ s'.searchmap → noDone ch'))) := by
+    intro c ch' hc'
+    have hc : c < s.chans.length := by rw [← hchlen]; exact (List.getElem?_eq_some_iff.mp hc').1
+    obtain ⟨ch2, hc2, r⟩ := hch c s.chans[c] (List.getElem?_eq_getElem hc)
+    rw [hc'] at hc2; cases hc2
+    exact ⟨s.chans[c], List.getElem?_eq_getElem hc, r⟩
+  refine ⟨?_, ?_, ?_, ?_, ?_, ?_, ?_, ?_, ?_, ?_, ?_, ?_, by rw [hq]; exact a13⟩
+  · intro j hj; rw [hq] at hj
+    obtain ⟨o, ho, hp⟩ := a1 j hj
+    obtain ⟨o', ho', _, _, _, _, hph, _⟩ := hops j o ho
+    exact ⟨o', ho', by rw [hph]; exact hp⟩
+  · intro j o' ho' hp
+    obtain ⟨o, ho, _, _, _, _, hph, _⟩ := hops_back j o' ho'
+    rw [hq]; exact a2 j o ho (by rw [← hph]; exact hp)
+  · intro j o' ho' hp
+    obtain ⟨o, ho, _, _, _, _, hph, heq⟩ := hops_back j o' ho'
+    rcases heq with e | ⟨_, ht, _⟩
+    · subst e; exact a3 j o' ho hp
+    · exact absurd (by rw [hph]; exact ht) hp
+  · intro j o' ho'
+    obtain ⟨o, ho, _, hk, hc, _⟩ := hops_back j o' ho'
+    rw [hk, hc]; exact a4 j o ho
+  · intro p hp
+    obtain ⟨hin0, hne⟩ := (hrm p).mp hp
+    obtain ⟨o, ho, hid, hpt, hm, hrs⟩ := a5 p hin0
+    obtain ⟨o', ho', hid', _, _, hres, hph, heq⟩ := hops _ o ho
+    rcases heq with e | ⟨e, _⟩
+    · subst e
+      exact ⟨o', ho', hid, hpt, hm, by rw [hsq]; exact hrs⟩
+    · exact absurd (by rw [← hid]; exact e) hne
+  · intro p hp
+    obtain ⟨hin0, hne⟩ := (hsm p).mp hp
+    obtain ⟨ch, o, hc, ho, hid, hch0, hpt, hm, hnd, himp, hrs⟩ := a6 p hin0
+    obtain ⟨o', ho', hid', _, _, hres, hph, heq⟩ := hops _ o ho
+    obtain ⟨ch', hc', hidx, hf1, hf2, hitems⟩ := hch p.2 ch hc
+    have hoeq : o' = o := by
+      rcases heq with e | ⟨e, _⟩
+      · exact e
+      · exact absurd (by rw [← hid]; exact e) hne
+    subst hoeq
+    refine ⟨ch', o', hc', by rw [hidx]; exact ho', hid, hch0, hpt, hm, ?_, ?_, hrs⟩
+    · rcases hitems with e | ⟨o2, ho2, hid2, _, _⟩
+      · intro f hf; rw [e] at hf; exact hnd f hf
+      · rw [ho] at ho2; cases ho2
+        exact absurd (by rw [← hid]; exact hid2) hne
+    · intro hh; rw [hf1, hf2, hsq] at *; exact himp hh
+  · intro c ch' o' hc' ho'
+    obtain ⟨ch, hc, hidx, hf1, hf2, hitems⟩ := hch_back c ch' hc'
+    rw [hidx] at ho'
+    obtain ⟨o, ho, _, _, _, hres, hph, _⟩ := hops_back _ o' ho'
+    have := a7 c ch o hc ho
+    refine ⟨fun hne => by rw [hf1, hf2]; exact this.1 (by rw [← hres]; exact hne), fun hp => ?_⟩
+    rcases hitems with e | ⟨o2, ho2, _, ht, _⟩
+    · rw [e]; exact this.2 (by rw [← hph]; exact hp)
+    · rw [ho] at ho2; cases ho2
+      exact absurd (by rw [hph]; exact ht) hp
+  · intro j hj o' ho' hto
+    rw [hq] at hj
+    obtain ⟨o, ho, hid, _, _, hres, _⟩ := hops_back j o' ho'
+    rw [hid, hsq]
+    rcases a8 j hj o ho (by rw [← hres]; exact hto) with r | r
+    · exact Or.inl r
+    · exact Or.inr (fun hmem => r ((hin _).mp hmem).1)
+  · intro j o' ho' hh
+    obtain ⟨o, ho, _, _, _, hres, hph, heq⟩ := hops_back j o' ho'
+    rw [hph]
+    rcases heq with e | ⟨_, ht, hna⟩
+    · subst e; exact a9 j o' ho hh
+    · exact ht
+  · intro _ k hk
+    obtain ⟨hkin, hkne⟩ := (hin k).mp hk
+    obtain ⟨j, o, ho, hid, hreg⟩ := a10 hrun k hkin
+    obtain ⟨o', ho', hid', hkind, hchn, _, hph, _⟩ := hops j o ho
+    refine ⟨j, o', ho', by rw [hid']; exact hid, ?_⟩
+    unfold Reg at hreg ⊢
+    rw [hph, hq, hid', hchn, hkind]
+    rcases hreg with r | r | r | ⟨c, r1, r2⟩ | r
+    · exact Or.inl r
+    · exact Or.inr (Or.inl r)
+    · exact Or.inr (Or.inr (Or.inl ((hrm _).mpr ⟨r, by rw [hid]; exact hkne⟩)))
+    · exact Or.inr (Or.inr (Or.inr (Or.inl ⟨c, r1, (hsm _).mpr ⟨r2, by rw [hid]; exact hkne⟩⟩)))
+    · exact Or.inr (Or.inr (Or.inr (Or.inr r)))
+  · intro hd2; rw [hd] at hd2; exact absurd hrun hd2
+  · intro c ch' hc'
+    obtain ⟨ch, hc, hidx, _⟩ := hch_back c ch' hc'
+    rw [hidx, hlen]; exact a12 c ch hc
+
 end Ldap3V.Conn
